@@ -722,6 +722,10 @@ def _sp_listing(ctx: Ctx, f: FuncInfo) -> None:
     from ..skelrules import spec_from_src
 
     w, u, start = f.params[1], f.params[2], f.params[3]
+    dflt = f.node.args.defaults[-1] if f.node.args.defaults else None
+    if dflt is not None and not (isinstance(dflt, ast.Constant) and dflt.value == 0):
+        ctx.violation("C14-D1", f, f.node, f"the scan starts at index {unparse(dflt)} by default: occurrences at the beginning of the word are not listed (pinword_contains_sp relies on the default)")
+        return
     loops = [st for st in f.body if isinstance(st, ast.For)]
     if len(loops) != 1:
         raise AnalysisError(f"{f.where}: scan loop not recognised")
@@ -790,6 +794,19 @@ def _rec_shape(ctx: Ctx, occ: FuncInfo) -> None:
     calls = [n for n in ast.walk(lp) if isinstance(n, ast.Call) and call_name(n) == (rec.name,)]
     if len(calls) != 1:
         raise AnalysisError(f"{rec.where}: recursive call not found")
+    # every result of the deeper search is passed on
+    passed = False
+    for n in ast.walk(lp):
+        if isinstance(n, ast.YieldFrom) and n.value is calls[0]:
+            passed = True
+        if isinstance(n, ast.For) and n.iter is calls[0] and len(n.body) == 1 and isinstance(n.body[0], ast.Expr) and isinstance(n.body[0].value, ast.Yield) \
+                and n.body[0].value.value is not None and unparse(n.body[0].value.value) == unparse(n.target) and not n.orelse:
+            passed = True
+    if passed:
+        ctx.ok("C14-D1", rec.where, "every placement found for the remaining factors is passed on to the caller", calls[0], rec)
+    else:
+        ctx.violation("C14-D1", rec, calls[0], "the results of the search for the remaining factors are not all passed on (yield from / for x in ...: yield x)")
+        return
     args = [unparse(a) for a in calls[0].args]
     if args == [w, us, f"{o} + len({us}[{j}])", f"{j} + 1", res]:
         ctx.ok("C14-D1", rec.where, "the next factor is searched after the end of the current match (occ + len(factor)), factors in order", calls[0], rec)
@@ -863,7 +880,7 @@ def run(ctx: Ctx) -> None:  # noqa: F811
     ctx.run(rule_d1, ctx)
 
 
-FLOORS["C14-D1"] = 8
+FLOORS["C14-D1"] = 9
 FLOORS["C14-D2"] = 1
 EXPLANATION = EXPLANATION.replace("NOT decided: (d) that pattern containment is reflected by the factor-by-factor word search", "Of (d) only the by-construction parts are decided (D1: contains = NonEmpty(occurrences), "
                                   "the strict-factor test of Lemma 3.12 at every start index, factors placed in order after the end of the previous match, factorisation into numeral-led blocks). "
